@@ -7,7 +7,8 @@
     order.  [C19_canon_reorders_fields] shows [canon] only reorders fields. *)
 From Coq Require Import List NArith ZArith Lia Permutation.
 From PQ Require Import Base.Bytes Variant.Model Variant.Shred Variant.BaseLemmas
-  Variant.EncProofs Variant.ShredProofs Variant.Header Variant.HeaderProofs.
+  Variant.EncProofs Variant.ShredProofs Variant.Header Variant.HeaderProofs
+  Variant.Navigate Variant.NavigateProofs.
 Import ListNotations.
 Open Scope N_scope.
 
@@ -81,6 +82,29 @@ Theorem C19_typed_leaf_roundtrip : forall t v p,
   wf_ptype t -> wf v -> to_parquet t v = Some p -> of_parquet t p = Some v.
 Proof. exact of_to_parquet. Qed.
 
+(** Typed navigation (the cursors of variant_column_reader.go: Path / Field /
+    Elements).  [navigate] is the specification the cursors are compared with:
+    it navigates the LOGICAL value of every row (Variant/Navigate.v).  For
+    every shredding schema, every well-formed value and every path -- inside
+    the shredding schema, outside it, partly inside, through lists -- the
+    entries reached in the value the reader reconstructs from what the writer
+    shredded are, one by one, the entries reached in the value that was written
+    (object fields in name order): navigation cannot tell a shredded column from
+    an unshredded one.  [C19_navigate_canon]: navigation does not see the order
+    of object fields (first field with the name, names distinct);
+    [C19_offsets_canon]: nor do the list offsets. *)
+Theorem C19_navigate_shredded : forall s v p r, wf_schema s -> wf v ->
+  exists v', reconstruct s (shred s v) = Some (Some v') /\
+             navigate p [(r, Some (canon v'))] = map canon_entry (navigate p [(r, Some v)]).
+Proof. intros s v p r. exact (navigate_shredded s v p r). Qed.
+
+Theorem C19_navigate_canon : forall p es, Forall wf_entry es ->
+  navigate p (map canon_entry es) = map canon_entry (navigate p es).
+Proof. exact navigate_canon. Qed.
+
+Theorem C19_offsets_canon : forall es, offsets (map canon_entry es) = offsets es.
+Proof. exact offsets_canon. Qed.
+
 (** typed decimal leaves as other writers store them (the library's own writer
     uses 16 bytes only): a DECIMAL column of n <= 16 big-endian two's
     complement bytes -- FIXED_LEN_BYTE_ARRAY(n), or a BYTE_ARRAY value of any
@@ -123,6 +147,9 @@ Print Assumptions C19_reconstruct_shred.
 Print Assumptions C19_reconstruct_shred_bytes.
 Print Assumptions C19_row_dictionary.
 Print Assumptions C19_typed_leaf_roundtrip.
+Print Assumptions C19_navigate_shredded.
+Print Assumptions C19_navigate_canon.
+Print Assumptions C19_offsets_canon.
 Print Assumptions C19_narrow_decimal_leaf.
 Print Assumptions C19_array_header.
 Print Assumptions C19_object_header.
@@ -218,3 +245,21 @@ Example C19_ex_reconstruct :
   (let '(m, f) := shred_bytes ex_s ex_v in
    option_map (option_map canon) (reconstruct_bytes ex_s m f)) = Some (Some (canon ex_v)).
 Proof. vm_compute. split; reflexivity. Qed.
+
+(* navigation of ex_v (a partially shredded object under ex_s): $.c is outside
+   the shredding schema, $.a.b inside it, $.b[*].z partly inside (the fourth
+   element of the list is an object where a string was shredded), $.b[*] gives
+   the four elements, $.x nothing *)
+Example C19_ex_navigate :
+  navigate [StField [99]] [(0, Some ex_v)] = [(0, Some (VDec D4 2 12345))] /\
+  navigate [StField [97]; StField [98]] [(0, Some ex_v)] = [(0, Some (VBool true))] /\
+  navigate [StField [98]; StElems; StField [122]] [(0, Some ex_v); (1, None)] =
+    [(0, None); (0, None); (0, None); (0, Some (VFlt F64 4609434218613702656))] /\
+  offsets (navigate [StField [98]] [(0, Some ex_v); (1, None)]) = [0; 4; 4] /\
+  navigate [StField [120]] [(0, Some ex_v)] = [(0, None)] /\
+  (exists v', reconstruct ex_s (shred ex_s ex_v) = Some (Some v') /\
+     navigate [StField [99]] [(0, Some (canon v'))] = [(0, Some (VDec D4 2 12345))]).
+Proof.
+  repeat split; try (vm_compute; reflexivity).
+  eexists. split; vm_compute; reflexivity.
+Qed.
